@@ -267,7 +267,7 @@ def rect_values(rng, t, n, sizes, level=0):
     return [one(t, 0) for _ in range(n)]
 
 
-def gen_case(rng, i, tier):
+def gen_case1(rng, i, tier):
     r = rng.random()
     op = 'buffers' if r < 0.40 else 'pickle' if r < 0.52 else 'numpy' if r < 0.68 else 'numpy2' if r < 0.76 else 'arrow'
     cid = 'c%d' % i
@@ -315,6 +315,7 @@ def gen_case(rng, i, tier):
             n = rng.choice([0, 1, 2, 3, 4])
             sizes = [rng.choice([0, 1, 2, 3]) for _ in range(depth + 1)]
             vals = rect_values(rng, t, n, sizes)
+            tags['zero'] = int(n == 0 or 0 in sizes)
             enc = G.Enc(rng, special=True)
             lay = G.encode(enc, t, vals)
             a = dict(type=t, vals=vals, layout=lay, stats=enc.stats)
@@ -338,13 +339,15 @@ def gen_case(rng, i, tier):
     lay = post(rng, a['layout'], o)
     n = len(a['vals'])
     if op == 'buffers':
-        fk, kf = rng.choice(['default'] * 4 + ['custom', 'callable']), rng.choice(['default'] * 4 + ['custom', 'callable'])
+        fk, kf = rng.choice(['default'] * 6 + ['custom', 'callable']), rng.choice(['default'] * 6 + ['custom', 'callable'])
         if fk != 'default':
             opts.append(['fk', fk])
         if kf != 'default':
             opts.append(['kf', kf])
         if rng.random() < 0.15:
             opts.append(['pstart', rng.choice([1, 3, 10])])
+        if rng.random() < 0.3:
+            opts.append(['lazy', 1])
         tags.update(fk=fk, kf=kf)
     if op == 'pickle':
         proto = rng.choice([2, 3, 4, 5])
@@ -367,7 +370,59 @@ def gen_case(rng, i, tier):
     tags['extra_dtypes'] = int(bool(leaf_dtypes(lay) - CORE_DTYPES))
     tags['virtual'] = int(tree_has(lay, ('virt',)))
     return C.Case(cid, op, [G.sx(opts)], [G.sx(lay)],
-                  dict(nontrivial=nontrivial_value(a['vals']), tags=tags, tree=lay, opts=opts, type=a['type']))
+                  dict(nontrivial=nontrivial_value(a['vals']), tags=tags, tree=lay, opts=opts, type=a['type'], n=n))
+
+
+# features of an input that are known to run into one of the registered defects of the pinned tree: such inputs are kept
+# at a low rate (most cases must exercise the healthy paths); all node classes stay covered
+def has_empty_buffer(t):
+    if not is_node(t):
+        return False
+    h = t[0]
+    if h == 'np' and len(t[3]) == 0:
+        return True
+    if h in ('la', 'ix', 'ixo', 'un') and len(t[2]) == 0:
+        return True
+    if h in ('bym', 'bim') and len(t[1]) == 0:
+        return True
+    return any(has_empty_buffer(t[i]) for i in children_idx(t))
+
+
+def risks(c):
+    tree, op, o = c.meta['tree'], c.op, dict((x[0], x[1:]) for x in c.meta['opts'])
+    out = []
+    if tree_feature(tree, lambda t: t[0] == 'np' and ('datetime64' in t[1] or 'timedelta64' in t[1])):
+        out.append('datetime')
+    if op == 'buffers' and has_empty_buffer(tree):
+        out.append('empty-buffer')
+    if op == 'buffers' and 'lazy' in o and tree_feature(tree, lambda t: t[0] == 'rec' and t[2] == 'tuple'):
+        out.append('lazy-tuple')
+    if op in ('numpy', 'numpy2') and (tree_feature(tree, lambda t: (t[0] == 'np' and 0 in [int(x) for x in t[2]]) or (t[0] == 'reg' and int(t[1]) == 0)
+                                                   or (t[0] in ('lo', 'la') and len(t[2]) <= 1 and t[0] == 'la') or (t[0] == 'lo' and len(t[2]) <= 1))):
+        out.append('zero-dimension')
+    if op == 'numpy' and c.meta['tags'].get('zero') and 'zero-dimension' not in out:
+        out.append('zero-dimension')
+    if op in ('arrow', 'numpy') and tree_feature(tree, lambda t: t[0] == 'rec' and len(t) == 3):
+        out.append('record-without-fields')
+    if op == 'arrow' and any(k in o for k in ('parts', 'partitioned', 'repart')) and c.meta.get('n', 1) == 0:
+        out.append('all-chunks-empty')
+    if op == 'arrow' and o.get('tensor', ['0'])[0] in (1, '1') and tree_feature(tree, lambda t: t[0] == 'np' and len(t[2]) > 1):
+        out.append('tensor')
+    return out
+
+
+KEEP_RISKY = 0.12
+
+
+def gen_case(rng, i, tier):
+    c = None
+    for attempt in range(8):
+        c = gen_case1(rng, i, tier)
+        rk = risks(c)
+        c.meta['tags']['risk'] = ','.join(rk) if rk else 'none'
+        if not rk or rng.random() < KEEP_RISKY:
+            break
+    return c
 
 
 def corpus_cases():
@@ -643,22 +698,96 @@ def tree_feature(t, pred):
     return any(tree_feature(t[i], pred) for i in children_idx(t))
 
 
+def type_skeleton(fj):
+    """the type a form stands for, without parameters (as nested lists)"""
+    if isinstance(fj, str):
+        return fj
+    cls = fj.get('class', '')
+    if cls == 'VirtualArray':
+        return type_skeleton(fj['form'])
+    if cls == 'NumpyArray':
+        return [fj.get('primitive')] + list(fj.get('inner_shape') or [])
+    if cls == 'EmptyArray':
+        return 'unknown'
+    if cls.startswith('ListOffsetArray') or cls.startswith('ListArray'):
+        return ['var', type_skeleton(fj['content'])]
+    if cls == 'RegularArray':
+        return [fj['size'], type_skeleton(fj['content'])]
+    if cls.startswith('IndexedArray'):
+        return type_skeleton(fj['content'])
+    if cls.startswith('IndexedOptionArray') or cls in ('ByteMaskedArray', 'BitMaskedArray', 'UnmaskedArray'):
+        return ['opt', type_skeleton(fj['content'])]
+    if cls.startswith('UnionArray'):
+        return ['union'] + [type_skeleton(x) for x in fj['contents']]
+    if cls == 'RecordArray':
+        cs = fj['contents']
+        if isinstance(cs, dict):
+            return ['rec', list(cs.keys())] + [type_skeleton(x) for x in cs.values()]
+        return ['tuple'] + [type_skeleton(x) for x in cs]
+    return ['?', cls]
+
+
+def drop_parameters(ts):
+    """a type string without its `parameters={...}` decorations (and without the brackets they need)"""
+    out, i = [], 0
+    while i < len(ts):
+        m = re.compile(r',? ?parameters=\{').match(ts, i)
+        if m:
+            depth, j, instr = 1, m.end(), False
+            while j < len(ts) and depth:
+                ch = ts[j]
+                if instr:
+                    if ch == '\\':
+                        j += 1
+                    elif ch == '"':
+                        instr = False
+                elif ch == '"':
+                    instr = True
+                elif ch == '{':
+                    depth += 1
+                elif ch == '}':
+                    depth -= 1
+                j += 1
+            i = j
+        else:
+            out.append(ts[i])
+            i += 1
+    return ''.join(out).replace('[', '').replace(']', '').replace(' ', '')
+
+
+def types_equal_without_parameters(a, b):
+    return a != b and drop_parameters(a) == drop_parameters(b)
+
+
 def auto_sig(c, obl, what, lines):
     """structural signature of a finding (key into known_findings.json): from the operation, the stage / message and
     features of the input layout"""
     tree = c.meta.get('tree')
     text = what + ' ' + ' '.join(lines[1:])
     if tree_feature(tree, lambda t: t[0] == 'np' and ('datetime64' in t[1] or 'timedelta64' in t[1])):
-        return 'datetime-timedelta-support-incomplete'
+        # mechanisms: Form::fromnumpy has no kinds M/m (to_buffers, pickle); zero-length date-time arrays come out of
+        # numpy.asarray(layout) as float64; to_numpy hands back the layout object itself
+        if 'cannot convert NumPy dtype with kind' in text:
+            return 'buffers-datetime-form' if c.op in ('buffers', 'pickle') else 'datetime-timedelta-support-incomplete'
+        if re.search(r'(datetime64|timedelta64)(\[\w+\])?[^>]*-> .*float64', what) or "has no attribute 'dtype'" in text \
+                or 'can only concatenate tuple' in text or "has no attribute 'shape'" in text \
+                or ('does not conform to expected form' in text and ('"datetime64"' in text or '"timedelta64"' in text)):
+            return 'datetime-timedelta-support-incomplete'
+        if tree_feature(tree, lambda t: t[0] == 'np' and ('datetime64' in t[1] or 'timedelta64' in t[1]) and len(t[3]) == 0):
+            return 'datetime-timedelta-support-incomplete'
     if "'list' object has no attribute 'values'" in text and '/lazy' in what:
         return 'buffers-lazy-tuple-record'
-    if 'the Form of partition' in text:
-        return 'partition-forms-differ-after-packing' if c.op == 'pickle' else 'partition-forms-differ'
+    if 'the Form of partition' in text and c.op == 'pickle':
+        return 'partition-forms-differ-after-packing'
     if 'merge to float16 not implemented' in text:
         return 'float16-merge-not-implemented'
     if c.op == 'pickle' and 'type changed' in what and ' -> ' in what and \
-            what.split(' -> ')[0].count('parameters=') > what.split(' -> ')[1].count('parameters='):
+            (c.meta.get('skel_equal') or types_equal_without_parameters(*what.split('round trip: ', 1)[1].split(' -> ', 1))) and \
+            what.split(' -> ')[0].count('parameters=') > 0:
         return 'packed-loses-parameters'
+    if c.op == 'pickle' and 'type changed' in what and ' -> ' in what and 'union[' in what.split(' -> ')[0] and \
+            what.split(' -> ')[0].count(',') > what.split(' -> ')[1].count(',') and what.split(' -> ')[0].count('union[') >= what.split(' -> ')[1].count('union['):
+        return 'packed-simplifies-union'
     if 'generated array does not have the declared length' in text and '/lazy' in what:
         return 'buffers-lazy-declared-length'
     if c.op in ('buffers', 'pickle'):
@@ -755,8 +884,6 @@ def input_stage(V, c, skips, items):
 def signature_of(c, stage, exc, msg):
     """known-finding signatures (structural, from the exception and the input)"""
     tree = c.meta.get('tree')
-    if 'cannot convert NumPy dtype with kind' in msg:
-        return 'buffers-datetime-form'
     if exc == 'AttributeError' and "'list' object has no attribute 'values'" in msg and stage == 'lazy':
         return 'buffers-lazy-tuple-record'
     if 'must not be shorter than its' in msg or 'length mismatch' in msg or 'too short' in msg:
@@ -775,6 +902,11 @@ def compare_roundtrip(V, c, stage, inf, rtf, obl, check_form_params=True, what='
         return False
     it, rt = get(inf, 'type'), get(rtf, 'type')
     if norm_type(unhx(it)) != norm_type(unhx(rt)):
+        try:
+            c.meta['skel_equal'] = [type_skeleton(f) for f in forms_of(fld(inf, 'form'))][:1] == \
+                [type_skeleton(f) for f in forms_of(fld(rtf, 'form'))][:1]
+        except (ValueError, KeyError, TypeError):
+            c.meta['skel_equal'] = False
         V.add('viol', obl, '%s/%s: type changed in the %s: %s -> %s' % (c.op, stage, what, unhx(it), unhx(rt)), c, lines,
               sig=sig_type(c, stage, unhx(it), unhx(rt)))
         ok = False
@@ -835,11 +967,16 @@ def check_buffers(V, c, res, skips):
     if get(inf, 'valid') != '1':
         V.bump('skip-invalid-input')
         return 'skip'
+    tbs = item_status(fld(items, 'tobuf'))
+    if tbs is not None and tbs[0] == 'err' and tbs[1] == 'value' and 'the Form of partition' in tbs[4] and c.meta['tags'].get('partitioned'):
+        V.bump('expected-refusal:partition-forms-differ')      # documented: all partitions must have one Form
+        return 'skip'
     tb = check_stage(V, c, skips, 'tobuf', fld(items, 'tobuf'), obl)
     if tb is None:
         return 'fail'
     good = True
-    for stage in ('arr', 'bytes', 'json', 'dict', 'lazy'):
+    wants_lazy = any(x[0] == 'lazy' for x in c.meta['opts'])
+    for stage in ('arr', 'bytes', 'json', 'dict') + (('lazy',) if wants_lazy else ()):
         o2 = obl if stage != 'lazy' else 'impl:buffers-roundtrip-lazy'
         V.corr.setdefault(o2, True)
         rt = check_stage(V, c, skips, stage, fld(items, stage), o2)
